@@ -1,5 +1,5 @@
 From Coq Require Import List NArith ZArith Bool.
-From LTV.C11 Require Import Model ProofsParams Proofs Proofs2 ProofsInv ProofsInv2 ProofsInv3 ProofsInv4 ProofsAlloc ProofsGlob ProofsLim ProofsLim2 ProofsLim3 ProofsLim4 ProofsGlob2 ProofsNT ProofsNT2 ProofsNT3 ProofsWire.
+From LTV.C11 Require Import Model ProofsParams Proofs Proofs2 ProofsInv ProofsInv2 ProofsInv3 ProofsInv4 ProofsAlloc ProofsGlob ProofsLim ProofsLim2 ProofsLim3 ProofsLim4 ProofsGlob2 ProofsNT ProofsNT2 ProofsNT3 ProofsFair ProofsWire.
 Import ListNotations.
 Local Open Scope Z_scope.
 
@@ -133,6 +133,24 @@ Theorem cycle_rotates : forall d v g quota h h' z, v_dir v = d -> InvL d h -> (g
             cs_u (getcs h' c) = true /\ cs_a (getcs h' c) = true.
 Proof. exact ProofsNT3.cycle_rotates. Qed.
 Print Assumptions cycle_rotates.
+
+(* fairness, bounded wait, the case that needs no oracle on random(): when c is the only waiting
+   (queued, choked, not snubbed) connection of its group -- slots + 1 interested peers -- the next cycle
+   with an effective quota >= 1 unchokes c; so with one more interested peer than slots nobody waits
+   longer than one cycle.  The general statement (every persistently interested non-snubbed peer is
+   unchoked within a bounded number of cycles provided random() gives it the top weight of a single
+   weight class at some cycle) is NOT proved: it needs which element adjust_choke_range picks, only
+   its count and its membership in the queue are proved (cycle_rotates). On the implementation the
+   check evaluates rotation per tick and coverage over long tick streaks (props/c11.py). *)
+Theorem fairness_single_waiter_partial : forall d v g quota h h' z c, v_dir v = d -> InvL d h -> (g < ng h)%nat ->
+  (forall t, In t (q_ents (getq h g)) -> e_min (getent h t) = 0%N) ->
+  (1 <= N.min quota (q_max (getq h g)))%N ->
+  waiting h g c -> (forall c', waiting h g c' -> c' = c) ->
+  (lenN (e_u (getent h (tor_of h c))) < e_max (getent h (tor_of h c)))%N ->
+  cycle v g quota h = Ok (h', z) ->
+  cs_u (getcs h' c) = true /\ cs_a (getcs h' c) = true.
+Proof. exact ProofsFair.fairness_single_waiter. Qed.
+Print Assumptions fairness_single_waiter_partial.
 
 (* limits for choke_queue::cycle: in every reachable-style state (InvL) a cycle of group g ends with
      currently_unchoked(g) <= max( min(quota, max_unchoked(g)), slots forced by min_slots in g )
